@@ -585,11 +585,13 @@ Definition complex_witness : list call :=
   [mkCall F_base [] (s "B") [3; 3] [] [];
    mkCall F_integral [(KBase, 1)] (s "I") [] [] [];
    mkCall F_array [(KBase, 1); (KIntegral, 1)] (s "A") [] [] [(dX4, [1], [0; 0; 128; 63; 0; 0; 0; 64])]].
+Definition complex_result : ent * list Z :=
+  match run root0 complex_witness with Some r => r | None => (root0, []) end.
 Lemma complex_array_refuted :
   if dt_in dts_loadable dX4 then True
   else exists root idxs, run root0 complex_witness = Some (root, idxs) /\ read_file (enc root) = None.
 Proof.
   destruct (dt_in dts_loadable dX4) eqn:E; [exact I|].
-  first [ vm_compute in E; discriminate
-        | eexists; eexists; split; vm_compute; reflexivity ].
+  exists (fst complex_result), (snd complex_result).
+  revert E. vm_compute. intros E. first [ discriminate E | split; reflexivity ].
 Qed.
